@@ -71,7 +71,7 @@ CHECKS = {
    "DESIGN.md §4 C14", "E1 simnet + E3 component"),
  "C15": ("exploration",
    "runtime monitor vs. size-limit classification model (codec level + simnet)",
-   "Boundary sweep limit-2..limit+2 on the real frame codec and end-to-end RPCs aiming each of the four frames at an applicable limit on caller/callee/both/neither, plus 8 MiB-boundary and 12/32 MiB RPCs without limits; every error must be confined to the RPC. The 8 MiB cap with no limit configured is a recorded finding.",
+   "Configured limits from 0 to 1 MiB plus values at and beyond 2^32; boundary sweep limit-2..limit+2 on the real frame codec and end-to-end RPCs aiming each of the four frames at an applicable limit on caller/callee/both/neither, plus 8 MiB-boundary and 12/32 MiB RPCs without limits; every error must be confined to the RPC. The 8 MiB cap with no limit configured is a recorded finding.",
    "Header-frame sizes computed by an independent reference encoder.",
    "DESIGN.md §4 C15", "E1 simnet + E3 component"),
  "C07": ("exploration",
